@@ -258,20 +258,30 @@ def rule_arg(ctx):
 
 
 def keep_set(p):
+    """(verbs for which the dispatcher keeps the restart offset, the deciding `if`): the offset is cleared under `<cmd> not in (<verbs>)` - written directly,
+    negated, through a named condition, or as the else of `in`"""
     disp = p.dispatcher()
+
+    def clears(stmts):
+        return any(isinstance(t, ast.Attribute) and t.attr == "restart_offset" for s in stmts if isinstance(s, ast.Assign) for t in s.targets)
     for n in ast.walk(disp):
-        if isinstance(n, ast.If) and isinstance(n.test, ast.Compare) and len(n.test.ops) == 1 \
-                and isinstance(n.test.comparators[0], (ast.Tuple, ast.List, ast.Set)):
-            clears = any(isinstance(t, ast.Attribute) and t.attr == "restart_offset" for s in n.body + n.orelse if isinstance(s, ast.Assign) for t in s.targets)
-            if clears:
-                try:
-                    vals = {e.value for e in n.test.comparators[0].elts}
-                except AttributeError:
-                    raise Inconclusive("C05.REST: keep-set is not a literal collection")
-                if isinstance(n.test.ops[0], ast.NotIn) and any(isinstance(t, ast.Attribute) and t.attr == "restart_offset" for s in n.body if isinstance(s, ast.Assign) for t in s.targets):
-                    return vals, n
-                if isinstance(n.test.ops[0], ast.In) and any(isinstance(t, ast.Attribute) and t.attr == "restart_offset" for s in n.orelse if isinstance(s, ast.Assign) for t in s.targets):
-                    return vals, n
+        if not isinstance(n, ast.If) or not (clears(n.body) or clears(n.orelse)):
+            continue
+        for branch, truth in ((n.body, True), (n.orelse, False)):
+            if not clears(branch):
+                continue
+            for t, pol in flatten_test(p, n.test, truth, disp):
+                if isinstance(t, ast.Compare) and len(t.ops) == 1 and isinstance(t.ops[0], (ast.In, ast.NotIn)):
+                    coll = deep_expand(p, t.comparators[0], disp)
+                    if not isinstance(coll, (ast.Tuple, ast.List, ast.Set)):
+                        raise Inconclusive("C05.REST: keep-set is not a literal collection")
+                    try:
+                        vals = {e.value for e in coll.elts}
+                    except AttributeError:
+                        raise Inconclusive("C05.REST: keep-set is not a literal collection")
+                    not_in = isinstance(t.ops[0], ast.NotIn) == pol
+                    if not_in:
+                        return vals, n
     raise AnalysisError("anchor=dispatcher's restart-offset keep-set (if cmd not in (...): offset = 0) not found")
 
 
